@@ -291,6 +291,10 @@ def gen_trace(rng, lib, nobj, tmp):
         F = rng.randint(1, 3)
         l = rng.randint(1, 12)
         Lx, Ly = rng.randint(4 * S, 12 * S), rng.randint(4 * S, 12 * S)
+        big = o == nobj - 1
+        if big:        # scale: more than 2048 particles (and not a multiple of it): block-wise processing of the particles
+            source, S, N, F, l = "random", 10, rng.randint(2300, 2700), 1, rng.choice([4, 6])
+            Lx, Ly = 801, 903
         if rng.random() < 0.7:        # odd lengths: no exact half-cell ties in an orthogonal cell
             Lx, Ly = Lx | 1, Ly | 1
         tilt = rng.randint(-Lx // 2, Lx // 2) if rng.random() < 0.5 and source != "freud" else 0
